@@ -274,6 +274,8 @@ def run_traced(job, opt=None):
             opt.set_config_parameters(json.loads(target._config.model_dump_json()))
         if opt is None:
             opt = optimizers.make(job["name"], **job.get("cfg", {}))
+            if job.get("debug"):
+                opt._debug = True          # what `Optimizer(config, debug=True)` sets: verbose per-cycle printing (stdout is captured below), nothing else
     except Exception as e:  # construction problems are reported, not raised
         out["setup_error"] = f"{type(e).__name__}: {e}"
         return out
